@@ -259,7 +259,7 @@ class World:
         raise ValueError(d)
 
 
-def gen_world_desc(rng: random.Random, nuser=None, features=True, generics=0.1):
+def gen_world_desc(rng: random.Random, nuser=None, features=True, generics=0.1, twins=False):
     """random hierarchy descriptor; retried by the caller when CPython rejects the MRO"""
     nuser = nuser if nuser is not None else rng.randint(2, 6)
     user = []
@@ -296,6 +296,16 @@ def gen_world_desc(rng: random.Random, nuser=None, features=True, generics=0.1):
             if kind == "generic":
                 generic_ids.append(cid)
         user.append(u)
+    if twins and nuser >= 3:
+        # a pair of twin protocols (same required method: subclasses of each other) and a class that has the method
+        m = rng.randrange(NATTR)
+        for i in (0, 1):
+            user[i] = {"kind": "proto", "bases": [], "attrs": [], "virtual": [], "proto_attr": m}
+        for u in user[2:]:
+            u["bases"] = [b for b in u["bases"] if b not in (NBUILTIN, NBUILTIN + 1)]
+        plain = [u for u in user[2:] if u["kind"] == "plain"]
+        if plain and m not in plain[0]["attrs"]:
+            plain[0]["attrs"] = sorted(plain[0]["attrs"] + [m])
     # virtual subclasses of ABCs
     for i, u in enumerate(user):
         if u["kind"] == "abc":
